@@ -18,7 +18,7 @@
 // of the poison run (alloc / retain / release / free with the reference count READ FROM THE REAL BLOCK HEADER) is
 // written for replay through the Lean model driver.
 //
-// Line protocol (stdin):  <file> <tracefile|-> [maxevents]      stdout: one JSON object per line.
+// Line protocol (stdin):  <file> <tracefile|-> [maxevents [modes]]   (modes: poison,quarantine)   stdout: one JSON object per line.
 package main
 
 import (
@@ -91,7 +91,7 @@ func firstDiff(a, b []byte) string {
 	return ""
 }
 
-func runProgram(file, traceFile string, maxEvents int) (res result) {
+func runProgram(file, traceFile string, maxEvents int, modes []string) (res result) {
 	src, err := os.ReadFile(file)
 	if err != nil {
 		return result{Status: "build-error", Error: err.Error()}
@@ -151,7 +151,7 @@ func runProgram(file, traceFile string, maxEvents int) (res result) {
 	}
 	lap("asm1")
 	res.Modes = map[string]*modeResult{}
-	for _, mode := range []string{"poison", "quarantine"} {
+	for _, mode := range modes {
 		tr := newTracker(mode)
 		if mode == "poison" && traceFile != "-" && traceFile != "" {
 			if err := tr.openTrace(traceFile, maxEvents); err != nil {
@@ -226,7 +226,11 @@ func main() {
 				if len(f) > 2 {
 					max, _ = strconv.Atoi(f[2])
 				}
-				if s := vh.Safe(func() string { r = runProgram(f[0], f[1], max); return "" }); s != "" {
+				modes := []string{"poison", "quarantine"}
+				if len(f) > 3 {
+					modes = strings.Split(f[3], ",")
+				}
+				if s := vh.Safe(func() string { r = runProgram(f[0], f[1], max, modes); return "" }); s != "" {
 					r = result{Status: "run-error", Error: s}
 				}
 			}
